@@ -91,6 +91,14 @@ P.update({
             'limit, new=True adds the current counters, a second Solve does nothing; the real NM/Powell/DE/DE2 steps and the wrappers are run under small limits.',
             'DESIGN.md#c05', 'asynchronous SIGINT delivery is not modelled (the handler is driven directly).'),
 })
+P.update({
+    'C08': (True, 'translation_validation',
+            'Differential check of the real steps against reference transcriptions of the published iterations over one shared uninterpreted cost: Nelder-Mead '
+            'iteration == scipy.optimize.fmin iteration (same simplex as multiset, same evaluation count; adaptive too; initial simplex rule; the transcription is '
+            'validated each run against the vendored scipy fmin), Powell generations 0..2 == scipy fmin_powell direction-set loop under one shared line-search oracle '
+            '(same points, energies and evaluation sequence), all ten DE strategies (components are parent or base+F*differences of distinct partners, crossover rule), '
+            'strictly-lower selection.', 'DESIGN.md#c08', ''),
+})
 
 NOT_YET = 'check not built yet in this round (planned: DESIGN.md section 4)'
 
